@@ -109,8 +109,8 @@ void pmixed(int i, int j, const char *pa1_, const char *pb1_, const char *pa2_, 
         if (bad) ++mism;
         typedef typename decltype(d)::Unit DU; typedef typename decltype(s)::Unit SU;
         if ((bad && mism <= 25) || rng.next() % 97 == 0 || P1 == P2)
-            std::printf("{\"k\":\"pmixed\",\"i\":%d,\"j\":%d,\"R\":\"%s\",\"x\":%s,\"y\":%s,\"lt\":%d,\"le\":%d,\"gt\":%d,\"ge\":%d,\"eq\":%d,\"ne\":%d,\"dval\":%s,\"dmag\":%s,\"sv\":%s,\"mv\":%s,\"smag\":%s,\"why\":\"%s\"}\n",
-                        i, j, rep_name<R>(), wire((i128)xv).c_str(), wire((i128)yv).c_str(), lt, le, gt, ge, eq, ne, wire((i128)d.in(DU{})).c_str(), unit_mag_json<DU>().c_str(),
+            std::printf("{\"k\":\"pmixed\",\"i\":%d,\"j\":%d,\"dR\":\"%s\",\"sR\":\"%s\",\"R\":\"%s\",\"x\":%s,\"y\":%s,\"lt\":%d,\"le\":%d,\"gt\":%d,\"ge\":%d,\"eq\":%d,\"ne\":%d,\"dval\":%s,\"dmag\":%s,\"sv\":%s,\"mv\":%s,\"smag\":%s,\"why\":\"%s\"}\n",
+                        i, j, rep_name<typename decltype(d)::Rep>(), rep_name<typename decltype(s)::Rep>(), rep_name<R>(), wire((i128)xv).c_str(), wire((i128)yv).c_str(), lt, le, gt, ge, eq, ne, wire((i128)d.in(DU{})).c_str(), unit_mag_json<DU>().c_str(),
                         wire((i128)s.in(SU{})).c_str(), wire((i128)m.in(SU{})).c_str(), unit_mag_json<SU>().c_str(), bad ? "mismatch" : "sample");
     }
     std::printf("{\"k\":\"ptsum\",\"what\":\"mixed\",\"i\":%d,\"j\":%d,\"n\":%lld,\"exact\":%lld,\"mismatches\":%lld}\n", i, j, n, n, mism);
